@@ -585,7 +585,13 @@ class BlockUploadStream(io.RawIOBase):
         end_time = time.time() + self.sdo_client.RESPONSE_TIMEOUT
         self._ack_block()
         while time.time() < end_time:
-            response = self.sdo_client.read_response()
+            try:
+                response = self.sdo_client.read_response()
+            except SdoCommunicationError:
+                # Nothing was retransmitted, tell the server that we give up
+                self._error = True
+                self.sdo_client.abort(0x05040000)
+                raise
             res_command, = struct.unpack_from("B", response)
             seqno = res_command & 0x7F
             if seqno == self._ackseq + 1:
@@ -607,7 +613,12 @@ class BlockUploadStream(io.RawIOBase):
         self._ackseq = 0
 
     def _end_upload(self):
-        response = self.sdo_client.read_response()
+        try:
+            response = self.sdo_client.read_response()
+        except SdoCommunicationError:
+            self._error = True
+            self.sdo_client.abort(0x05040000)
+            raise
         res_command, self._server_crc = struct.unpack_from("<BH", response)
         if res_command & 0xE0 != RESPONSE_BLOCK_UPLOAD:
             self._error = True
@@ -769,7 +780,12 @@ class BlockDownloadStream(io.RawIOBase):
 
     def _block_ack(self):
         logger.debug("Waiting for acknowledgement of last block...")
-        response = self.sdo_client.read_response()
+        try:
+            response = self.sdo_client.read_response()
+        except SdoCommunicationError:
+            # No acknowledgement, tell the server that we give up
+            self.sdo_client.abort(0x05040000)
+            raise
         res_command, ackseq, blksize = struct.unpack_from("BBB", response)
         if res_command & 0xE0 != RESPONSE_BLOCK_DOWNLOAD:
             self.sdo_client.abort(0x05040001)
